@@ -15,6 +15,7 @@ import (
 	"bytes"
 	"encoding/hex"
 	"fmt"
+	"runtime/debug"
 	"strings"
 	"testing"
 
@@ -936,6 +937,8 @@ func TestVerifC17(t *testing.T) {
 		"Withdrawals: every prefix length x family x add-path. OPEN: every capability set newPeer can build x local AS x hold time. NOTIFICATION: all 65536 (code,subcode). KEEPALIVE. " +
 		"evaluation = one serialization attempt; non-trivial = a message was emitted and passed both decoders")
 	r.Require(zvC17Required...)
+	// tiny live heap, lots of short-lived buffers: collect less often
+	defer debug.SetGCPercent(debug.SetGCPercent(800))
 	if r.IsReplay() {
 		var c zvC17Case
 		r.ReplayCase(&c)
